@@ -242,6 +242,11 @@ func c10CliWorld(rc *RunCtx) {
 	desc := map[string]any{"family": "cli", "globals": sc.Globals, "funcs_file": sc.FuncsText, "second_funcs_file_from_byte": sc.SplitAt, "template": tpl, "inlined": refTpl, "workers": sc.Workers, "batch": sc.Batch, "lines": len(corpus)}
 	rc.Sample = desc
 	run := func(args []string) *cliResult {
+		if len(args) >= 2 && args[0] == "\x00env" {
+			os.Setenv("RARE_FUNC_FILES", args[1])
+			defer os.Unsetenv("RARE_FUNC_FILES")
+			args = args[2:]
+		}
 		s := rc.NewSim(simrt.Opts{MaxSteps: 400000, IdleLimit: time.Hour})
 		res := runCLI(rc, s, args)
 		rc.Absorb(s)
@@ -250,7 +255,20 @@ func c10CliWorld(rc *RunCtx) {
 		}
 		return res
 	}
+	// the funcs files may also be named through the environment (RARE_FUNC_FILES, comma-separated) instead of --funcs
+	viaEnv := t.WBool(1, 4)
+	if viaEnv {
+		var names []string
+		for i := 1; i < len(funcsArgs); i += 2 {
+			names = append(names, funcsArgs[i])
+		}
+		funcsArgs = []string{"\x00env", strings.Join(names, ",")}
+		rc.Probes["cli-funcs-through-environment"]++
+	}
 	withFuncs := func(base []string) []string {
+		if viaEnv {
+			return append(append([]string{funcsArgs[0], funcsArgs[1]}, sc.Globals...), base...)
+		}
 		return append(append(append([]string{}, sc.Globals...), funcsArgs...), base...)
 	}
 	plain := func(base []string) []string { return append(append([]string{}, sc.Globals...), base...) }
